@@ -132,6 +132,22 @@ def finish(run, args):
                 continue
         undecided.append((name, reason))
 
+    # bounded stand-ins (never counted as discharged obligations): native checks of assumed contracts
+    bounded_runs = []
+    for h, what in getattr(mod, "BOUNDED", []):
+        res = native(h, dict(seed=run.seed, tier=run.tier), timeout=300)
+        bounded_runs.append(dict(harness=h, what=what, evaluations=res.get("evaluations"), ok=not res.get("violates"),
+                                 error=res.get("error")))
+        if res.get("error"):
+            faults.append("bounded stand-in %s: %s" % (h, res["error"][-300:]))
+        elif res.get("violates"):
+            payload = dict(property=pid, obligation="bounded::" + h, tree=repo_root(), harness=h,
+                           inputs=dict(seed=run.seed, tier=run.tier), native=res,
+                           solver=dict(verdict="n/a", reason="bounded native check of an assumed contract failed"))
+            path = write_replay(pid, "bounded::" + h, payload)
+            violations.append(("bounded::" + h, path, True))
+    run.bounded_runs = bounded_runs
+
     # vacuity guards
     if nobl == 0:
         faults.append("zero obligations generated")
@@ -208,7 +224,7 @@ def evidence(run, agg, violations, undecided, known_hits, faults, wall, args):
     trusted = sorted(set(list(getattr(mod, "TRUSTED", [])) +
                          ["intrinsic model: " + t for t in sorted(E.trusted_used)] +
                          ["assumed contract (callee not verified in this property): " + c
-                          for c in sorted(E.contracts_used - set(run.targets))]))
+                          for c in sorted(E.contracts_used - set(t if isinstance(t, str) else t[0] for t in run.targets))]))
     assumptions = list(getattr(mod, "ASSUMPTIONS", [])) + [
         "Python ints are mathematical integers (exact); bytes/str are sequences over an axiomatised sort "
         "(len/at/cat/slice with triggers, extensionality)",
@@ -229,7 +245,8 @@ def evidence(run, agg, violations, undecided, known_hits, faults, wall, args):
             undecided=[n for n, _ in undecided],
             failed=[n for n, _, _ in violations],
             known_findings=[dict(obligation=n, what=k.get("what")) for k, n in known_hits],
-            bounded=sorted(E.bounded),
+            bounded=sorted(E.bounded) + ["%s: %s (%s evaluations, %s)" % (b["harness"], b["what"], b["evaluations"], "ok" if b["ok"] else "FAILED")
+                                         for b in getattr(run, "bounded_runs", [])],
             argued=list(getattr(mod, "ARGUED", [])),
             extraction_drops="comments, docstrings, decorators %s; logging calls are effect-free after their "
                              "arguments are evaluated" % sorted(E.decorators_seen),
